@@ -176,7 +176,7 @@ func verifCheckIndex(idx *Index, rows []verifRow, tag string) {
 
 func HarnessC05Writers() {
 	verifAbstractHashFor("a\x00")
-	maxRows := 3
+	maxRows := 3 + verifTier()
 	n := 1 + verifChoice("nrows", maxRows)
 	if verifBool("zero-rows") {
 		n = 0
